@@ -1370,6 +1370,7 @@ pub const CLASS_STRUCT: &str = "struct-pattern-not-listing-every-field-in-declar
 pub const CLASS_OR: &str = "or-pattern-with-alternatives-of-different-constructors";
 pub const CLASS_WITNESS: &str = "scrutinee-with-several-columns";
 pub const CLASS_OR_RUNTIME: &str = "or-pattern-with-an-irrefutable-alternative";
+#[allow(dead_code)]
 pub const CLASS_INTERIOR: &str = "first-interior-catch-all-arm";
 
 /// The pattern shape of the matrix behind a known analysis defect of the unchanged tree, if it
@@ -1459,9 +1460,9 @@ pub fn judge_diagnostics(m: &Matrix, d: &Decls, ex: &Expected, diag: &FnDiag, re
                 out.push(Finding { kind: "reachable-arm-flagged-unreachable".into(), desc: format!("arm {i} `{}` is flagged unreachable but `{v}` reaches it first", print_pat(p)) });
             }
             (false, false) => {
-                // signature detail: the compiler deliberately skips the first interior catch-all arm
-                let interior = i + 1 < m.arms.len() && is_catch_all(p) && !m.arms[..i].iter().any(is_catch_all);
-                let kind = if interior { format!("unreachable-arm-not-flagged:{CLASS_INTERIOR}") } else { "unreachable-arm-not-flagged".to_string() };
+                // (the first interior catch-all arm used to be skipped by the compiler: class
+                // `first-interior-catch-all-arm`, repaired by 7ffe142; no special signature any more)
+                let kind = "unreachable-arm-not-flagged".to_string();
                 out.push(Finding { kind, desc: format!("arm {i} `{}` matches no value left by the earlier arms but is not flagged unreachable", print_pat(p)) });
             }
         }
